@@ -308,6 +308,9 @@ def ident_scripted(tier: str, seed: int) -> list[dict[str, Any]]:
             if mid:
                 skips.append(([], {1: [mid[0]], 2: [mid[-1]], 3: mid}))
                 skips.append(([2], {1: [mid[len(mid) // 2], start + 1, end + 1]}))
+                # a standing skip list whose entries also lie OUTSIDE the scanned range (a scan resumed with --start)
+                below = [x for x in (start - 1, start - 3, 0) if 0 <= x < start]
+                skips.append(([], {1: sorted(set(below + [mid[0], mid[-1]])), 2: sorted(set(below + mid[1:3] + [end + 2]))}))
             for sessions in ([1, 2], None, [2, 3], [1, 2, 5]):
                 for sa, sk in skips:
                     if sessions is None and (sa or sk):
